@@ -593,7 +593,7 @@ func (cx *Ctx) OpsC11(h []byte) (nontrivial bool) {
 						if asb[i][g] != nil || ass[i][g] != "" {
 							okB = false
 						}
-					} else if b < a || b > len(h) || asb[i][g] == nil || string(asb[i][g]) != s[a:b] || ass[i][g] != s[a:b] {
+					} else if b < a || b > len(h) || (asb[i][g] == nil) != (h[a:b] == nil) || string(asb[i][g]) != s[a:b] || ass[i][g] != s[a:b] {
 						okB = false
 					}
 				}
